@@ -349,7 +349,9 @@ func init() {
 				return wo, nil
 			}},
 		{Name: "rpcjson", // server side RPCMarshalWorkObject, client side UnmarshalJSON
-			Enc: func(v interface{}) ([]byte, error) { return json.Marshal(v.(*types.WorkObject).RPCMarshalWorkObject("v2")) },
+			Enc: func(v interface{}) ([]byte, error) {
+				return json.Marshal(v.(*types.WorkObject).RPCMarshalWorkObject("v2"))
+			},
 			Dec: func(b []byte, loc common.Location) (interface{}, error) {
 				wo := new(types.WorkObject)
 				if err := json.Unmarshal(b, wo); err != nil {
@@ -374,7 +376,9 @@ func init() {
 				return x.(*types.WorkObjectHeaderView).WorkObject, nil
 			}},
 		{Name: "convert", // ConvertToHeaderView then wire
-			Enc: func(v interface{}) ([]byte, error) { return pb.ConvertAndMarshal(v.(*types.WorkObject).ConvertToHeaderView()) },
+			Enc: func(v interface{}) ([]byte, error) {
+				return pb.ConvertAndMarshal(v.(*types.WorkObject).ConvertToHeaderView())
+			},
 			Dec: func(b []byte, loc common.Location) (interface{}, error) {
 				var out interface{}
 				if err := pb.UnmarshalAndConvert(b, loc, &out, &types.WorkObjectHeaderView{}); err != nil {
